@@ -61,6 +61,10 @@ Checks(x) ==
   [n |-> "C05_Reuse_Same",   v |-> render => o.reuseSame],
   \* a render through the cluster-connected route (RESTClientGetter set, --dry-run=server) equals the client-only one
   [n |-> "C05_Route_Same",   v |-> render => o.routeSame],
+  \* the second render through ONE action.Configuration (the first had --kube-version / --api-versions) equals a render through a fresh one
+  [n |-> "C05_CfgReuse_Same", v |-> render => o.cfgReuseSame],
+  \* overlapping client-only renders with one --api-versions entry each see their own entry and nobody else's
+  [n |-> "C05_CapsConc_Same", v |-> render => o.capsConcSame],
   [n |-> "C05_Eq_Manifest",  v |-> (render /\ ok) => SameDocs(ManProj(o.manifest), NoComments(c, r.manifest))],
   [n |-> "C05_Eq_Hooks",     v |-> (render /\ ok) => SameDocs(HookProj(o.hooks), r.hooks)],
   \* (where several NOTES.txt are joined, any FIXED order satisfies the property: which one is C05_Det_Notes' business)
@@ -69,6 +73,8 @@ Checks(x) ==
   [n |-> "C05_Eq_Engine",    v |-> (render /\ ok /\ o.dEngine > 0) => o.engine = EngineKeys(c)],
   (* ---- C05: the schema outcome does not depend on a file outside the chart ------------ *)
   [n |-> "C05_Schema_Isolated", v |-> ~render => (\A a, b \in DOMAIN o.schema : o.schema[a] = o.schema[b]) /\ o.dErr <= 1],
+  \* validating a schema sends no request anywhere (the harness' loopback listener, named by an absolute http "$ref", got none)
+  [n |-> "C05_Schema_NoRequest", v |-> ~render => o.httpHits = 0],
   [n |-> "C05_Schema_Outcome", v |-> ~render => (Len(o.schema) = 3 /\ (c.schema = "local" => \A a \in DOMAIN o.schema : o.schema[a] = "accept"))],
   (* ---- C08: every document in exactly one place, in order ----------------------------- *)
   \* NOTES.txt (at any depth) and partials neither reach the manifest nor make the operation fail
